@@ -102,9 +102,7 @@ def run(prog, rep, tier, cfg):
         rep.need('K10', 'terminate:refund:%s' % reason.split('::')[-1], len(hit) == 1, 'unlock %s of %s under %s' % (amt, party, reason), X.loc(PS))
     for c in sl:
         X.arg_has('K10', 'terminate:slash-provider', c, 2, ['F:DealProposal.provider'], 'provider slashed', forbid=['F:DealProposal.client'])
-        at = prog.narrow.operand(PS, c.args[3])
-        rep.need('K10', 'terminate:slash-whole-collateral', has_atom(at, 'F:DealProposal.provider_collateral') and not any(a[0] == 'OP' for a in at) and not has_atom(at, 'C:::div') and not has_atom(at, 'C:::mul') and not has_atom(at, 'C:::sub'),
-                 'the whole provider collateral is slashed; derives from %s' % sendsmod.pretty(at), c.where)
+        X.arg_has('K10', 'terminate:slash-whole-collateral', c, 3, ['F:DealProposal.provider_collateral'], 'the whole provider collateral is slashed (plain copy, no arithmetic)', copy=True)
     rep.need('K10', 'terminate:returns-slashed', has_atom(prog.narrow.local(PS, 0), 'F:DealProposal.provider_collateral'), 'returns the slashed amount', X.loc(PS))
     GR = X.fn('state::deal_get_payment_remaining', CR)
     a = prog.slicer.local(GR, 0)
